@@ -1661,8 +1661,8 @@ func (fr *Frame) modifiedIn(body map[*ssa.BasicBlock]bool) ([]*ssa.Alloc, []stri
 			}
 			return
 		}
-		if fn.Blocks == nil {
-			return
+		if fn.Blocks == nil || fn.Pkg == nil || !strings.HasPrefix(fn.Pkg.Pkg.Path(), "github.com/juev/hledger-lsp") {
+			return // library calls are abstracted at the call site: they have no effect on the modelled heap
 		}
 		// transparent: scan body
 		for _, b := range fn.Blocks {
@@ -1712,11 +1712,13 @@ func (fr *Frame) modifiedIn(body map[*ssa.BasicBlock]bool) ([]*ssa.Alloc, []stri
 	}
 	sort.Slice(cells, func(i, j int) bool { return cells[i].Name() < cells[j].Name() })
 	var keys []string
-	for k, ft := range keySet {
-		c.heapGet(fr.entry, k, ft) // make sure the entry array exists
+	for k := range keySet {
 		keys = append(keys, k)
 	}
 	sort.Strings(keys)
+	for _, k := range keys {
+		c.heapGet(fr.entry, k, keySet[k]) // make sure the entry array exists (in a fixed order)
+	}
 	return cells, keys
 }
 
